@@ -248,24 +248,63 @@ Proof.
 Qed.
 
 (* ---- the invariant ------------------------------------------------------------ *)
+Lemma init_step_ok d m er idx : dev_ok d -> dev_ok (fst (init_step d m er idx)).
+Proof.
+  intros Hd. unfold init_step.
+  destruct (negb (check_mac1 (d_static d) (init_body m) (i_mac1 m))); [exact Hd|].
+  destruct (consume_init (d_static d) (hs_list d) false m) as [[pid h1]|] eqn:Ec; [|exact Hd].
+  destruct (get_peer (d_peers d) pid) as [p|] eqn:Eg; [|exact Hd].
+  destruct (create_response_total _ _ _ _ _ er idx (dev_ok_peers_ok d Hd) Ec) as (h2 & r & Er).
+  rewrite Er.
+  destruct (begin_session h2 (p_kp p)) as [[[h3 s3] k]|] eqn:Eb.
+  + cbn [fst]. apply upd_peer_ok; [exact Hd|].
+    exact (responder_keypair_ok d m pid h1 er idx h2 r h3 s3 k p Hd Ec Eg Er Eb).
+  + (* impossible: the state is handshakeResponseCreated *)
+    exfalso. unfold begin_session in Eb.
+    assert (st h2 = handshakeResponseCreated).
+    { unfold create_resp in Er. destruct (negb (st h1 =? handshakeInitiationConsumed)); [discriminate|].
+      destruct (dh er (reph h1)); [|discriminate]. cbn [dh kdf3] in Er. inversion Er; subst. reflexivity. }
+    unfold derive_keypair in Eb. rewrite H in Eb. cbn in Eb. discriminate.
+Qed.
+
+(* peer_ok without the clause on the handshake state: what SetPrivateKey needs (it clears that state) *)
+Definition peer_okw (dv : kid) (dvs : list kid) (p : peer) : Prop :=
+  rstatic (p_hs p) = p_id p /\ ss (p_hs p) = dhn dv (p_id p) /\ slots_ok dvs (p_id p) (psk (p_hs p)) (p_kp p).
+
+Lemma peer_ok_w dv dvs p : peer_ok dv dvs p -> peer_okw dv dvs p.
+Proof. intros (A & B & _ & D). split; [exact A|]. split; [exact B|exact D]. Qed.
+
+Lemma rekey_dev_ok d new : Forall (peer_okw (d_static d) (hist d)) (d_peers d) -> dev_ok (rekey_dev d new).
+Proof.
+  intros Hd. unfold dev_ok, rekey_dev, hist in *. cbn [d_static d_peers d_olds]. rewrite Forall_forall in *.
+  intros q Hq. apply in_map_iff in Hq. destruct Hq as (p & <- & Hin).
+  destruct (Hd p Hin) as (A & B & (Sp & Sc & Sn)).
+  unfold peer_ok, rekey_peer. cbn [upd p_id p_hs p_kp clear_handshake rstatic ss psk st].
+  split; [exact A|]. split; [now rewrite A|]. split; [left; reflexivity|].
+  assert (Hi : incl (d_static d :: d_olds d) (new :: d_static d :: d_olds d)) by (intros x Hx; now right).
+  unfold slots_ok. cbn [previous current next].
+  split; [exact (okp_ok_mono _ _ _ _ _ Hi Sp)|].
+  split; apply okp_ok_expire; [exact (okp_ok_mono _ _ _ _ _ Hi Sc)|exact (okp_ok_mono _ _ _ _ _ Hi Sn)].
+Qed.
+
+Lemma set_private_key_ok d new : dev_ok d -> dev_ok (set_private_key d new).
+Proof.
+  intros Hd. unfold set_private_key. destruct (set_key_noop d new); [exact Hd|].
+  apply rekey_dev_ok. unfold dev_ok in Hd. rewrite Forall_forall in *. intros p Hin. apply peer_ok_w. now apply Hd.
+Qed.
+
+Lemma rekey_get_peer_st new ps k p2 : get_peer (map (rekey_peer new) ps) k = Some p2 -> st (p_hs p2) = handshakeZeroed.
+Proof.
+  induction ps as [|a r IH]; cbn [map get_peer]; [discriminate|].
+  destruct (Nat.eqb (p_id (rekey_peer new a)) k); [|exact IH].
+  intros H; inversion H; subst. reflexivity.
+Qed.
+
 Theorem dev_step_ok : forall d e, dev_ok d -> dev_ok (fst (dev_step d e)).
 Proof.
-  intros d e Hd. destruct e as [m er idx|m|receiver counter c|to e ts idx|to e ts idx| |receiver nonce c|new|secs]; cbn [dev_step].
+  intros d e Hd. destruct e as [m er idx|m|receiver counter c|to e ts idx|to e ts idx| |receiver nonce c|new|secs|m er idx new]; cbn [dev_step].
   - (* EInit *)
-    destruct (negb (check_mac1 (d_static d) (init_body m) (i_mac1 m))); [exact Hd|].
-    destruct (consume_init (d_static d) (hs_list d) false m) as [[pid h1]|] eqn:Ec; [|exact Hd].
-    destruct (get_peer (d_peers d) pid) as [p|] eqn:Eg; [|exact Hd].
-    destruct (create_response_total _ _ _ _ _ er idx (dev_ok_peers_ok d Hd) Ec) as (h2 & r & Er).
-    rewrite Er.
-    destruct (begin_session h2 (p_kp p)) as [[[h3 s3] k]|] eqn:Eb.
-    + cbn [fst]. apply upd_peer_ok; [exact Hd|].
-      exact (responder_keypair_ok d m pid h1 er idx h2 r h3 s3 k p Hd Ec Eg Er Eb).
-    + (* impossible: the state is handshakeResponseCreated *)
-      exfalso. unfold begin_session in Eb.
-      assert (st h2 = handshakeResponseCreated).
-      { unfold create_resp in Er. destruct (negb (st h1 =? handshakeInitiationConsumed)); [discriminate|].
-        destruct (dh er (reph h1)); [|discriminate]. cbn [dh kdf3] in Er. inversion Er; subst. reflexivity. }
-      unfold derive_keypair in Eb. rewrite H in Eb. cbn in Eb. discriminate.
+    now apply init_step_ok.
   - (* EResp *)
     destruct (negb (check_mac1 (d_static d) (resp_body m) (r_mac1 m))); [exact Hd|].
     destruct (find_hs_index (d_peers d) (r_receiver m)) as [p|] eqn:Ef; [|exact Hd].
@@ -309,19 +348,28 @@ Proof.
     cbn [fst]. apply upd_peer_ok; [exact Hd|].
     exact (dev_ok_in d p Hd (find_any_index_in _ _ _ Ef)).
   - (* ESetPrivateKey *)
-    destruct (Nat.eqb new (d_static d) || existsb (fun p => Nat.eqb (p_id p) new) (d_peers d)); [exact Hd|].
-    cbn [fst]. unfold dev_ok, hist in *. cbn [d_static d_peers d_olds]. rewrite Forall_forall in *.
-    intros q Hq. apply in_map_iff in Hq. destruct Hq as (p & <- & Hin).
-    destruct (Hd p Hin) as (A & B & _ & (Sp & Sc & Sn)).
-    unfold peer_ok, rekey_peer. cbn [upd p_id p_hs p_kp clear_handshake rstatic ss psk st].
-    split; [exact A|]. split; [now rewrite A|]. split; [left; reflexivity|].
-    assert (Hi : incl (d_static d :: d_olds d) (new :: d_static d :: d_olds d)) by (intros x Hx; now right).
-    unfold slots_ok. cbn [previous current next].
-    split; [exact (okp_ok_mono _ _ _ _ _ Hi Sp)|].
-    split; apply okp_ok_expire; [exact (okp_ok_mono _ _ _ _ _ Hi Sc)|exact (okp_ok_mono _ _ _ _ _ Hi Sn)].
+    cbn [fst]. now apply set_private_key_ok.
   - (* EAge *)
     cbn [fst]. unfold dev_ok, hist in *. cbn [d_static d_peers d_olds]. rewrite Forall_forall in *.
     intros q Hq. apply in_map_iff in Hq. destruct Hq as (p & <- & Hin). exact (Hd p Hin).
+  - (* EInitKey *)
+    destruct (negb (check_mac1 (d_static d) (init_body m) (i_mac1 m))); [cbn [fst]; now apply set_private_key_ok|].
+    destruct (consume_init (d_static d) (hs_list d) false m) as [[pid h1]|] eqn:Ec; [|cbn [fst]; now apply set_private_key_ok].
+    destruct (get_peer (d_peers d) pid) as [p|] eqn:Eg; [|cbn [fst]; now apply set_private_key_ok].
+    destruct (set_key_noop d new); [now apply init_step_ok|].
+    assert (Hd2 : dev_ok (rekey_dev (upd_peer d (upd p h1 (p_kp p) (p_staged p))) new)).
+    { apply rekey_dev_ok. unfold upd_peer, hist. cbn [d_static d_peers d_olds].
+      destruct (consume_init_inv _ _ _ _ _ _ Ec) as (e' & hq & ts' & _ & Ef & _ & _ & _ & _ & _ & _ & Hpsk1 & Hrs1 & Hss1 & _).
+      destruct (find_peer_get_peer _ _ _ _ Ef) as (p' & Hg' & Hhq). rewrite Eg in Hg'. inversion Hg'; subst p'; clear Hg'.
+      destruct (get_peer_in _ _ _ Eg) as [Hinp Hid]. subst hq.
+      destruct (dev_ok_in d p Hd Hinp) as (A & B & _ & D).
+      unfold dev_ok in Hd. rewrite Forall_forall in *. intros q Hq. apply in_map_iff in Hq. destruct Hq as (p0 & Hsel & Hin0).
+      destruct (Nat.eqb (p_id p0) (p_id (upd p h1 (p_kp p) (p_staged p)))); subst q.
+      - unfold peer_okw. cbn [upd p_id p_hs p_kp]. rewrite Hrs1, Hss1, Hpsk1. auto.
+      - apply peer_ok_w. exact (Hd p0 Hin0). }
+    destruct (get_peer (d_peers (rekey_dev (upd_peer d (upd p h1 (p_kp p) (p_staged p))) new)) pid) as [p2|] eqn:Eg2; [|exact Hd2].
+    assert (Hz : st (p_hs p2) = handshakeZeroed) by (eapply rekey_get_peer_st; exact Eg2).
+    unfold create_resp. rewrite Hz. cbn [N.eqb negb handshakeZeroed handshakeInitiationConsumed]. exact Hd2.
 Qed.
 
 Theorem no_session_with_stranger : forall (d : dev) (evs : list ev),
@@ -418,11 +466,10 @@ Proof.
   intros p0 Hin Hid. cbn [sent_mac1 upd p_id p_hs] in *. rewrite (Ha p0 Hin Hid). symmetry. now apply static_eq.
 Qed.
 
-Theorem dev_step_view : forall d e k, NoDup (ids d) ->
-  view (fst (dev_step d e)) k = view d k /\ ids (fst (dev_step d e)) = ids d.
+Lemma init_step_view d m er idx k : NoDup (ids d) ->
+  view (fst (init_step d m er idx)) k = view d k /\ ids (fst (init_step d m er idx)) = ids d.
 Proof.
-  intros d e k Hn. destruct e as [m er idx|m|receiver counter c|to e ts idx|to e ts idx| |receiver nonce c|new|secs]; cbn [dev_step].
-  - (* EInit *)
+  intros Hn. unfold init_step.
     destruct (negb (check_mac1 (d_static d) (init_body m) (i_mac1 m))); [split; reflexivity|].
     destruct (consume_init (d_static d) (hs_list d) false m) as [[pid h1]|] eqn:Ec; [|split; reflexivity].
     destruct (get_peer (d_peers d) pid) as [p|] eqn:Eg; [|split; reflexivity].
@@ -437,6 +484,26 @@ Proof.
         (split; [|apply upd_peer_ids]); apply upd_peer_view; apply (agrees_of_in d p); auto.
       cbn [sent_mac1 upd p_hs]. rewrite (begin_session_static _ _ _ _ _ Eb). exact S2.
     + split; [|apply upd_peer_ids]. apply upd_peer_view. apply (agrees_of_in d p); auto.
+Qed.
+
+Lemma rekey_dev_view d new k : view (rekey_dev d new) k = view d k /\ ids (rekey_dev d new) = ids d.
+Proof.
+  unfold view, ids, rekey_dev. cbn [d_peers]. split.
+  - induction (d_peers d) as [|a r IH]; cbn [map get_peer]; [reflexivity|].
+    cbn [rekey_peer upd p_id]. destruct (Nat.eqb (p_id a) k); [reflexivity|]. apply IH.
+  - rewrite map_map. reflexivity.
+Qed.
+
+Lemma set_private_key_view d new k :
+  view (set_private_key d new) k = view d k /\ ids (set_private_key d new) = ids d.
+Proof. unfold set_private_key. destruct (set_key_noop d new); [split; reflexivity|apply rekey_dev_view]. Qed.
+
+Theorem dev_step_view : forall d e k, NoDup (ids d) ->
+  view (fst (dev_step d e)) k = view d k /\ ids (fst (dev_step d e)) = ids d.
+Proof.
+  intros d e k Hn. destruct e as [m er idx|m|receiver counter c|to e ts idx|to e ts idx| |receiver nonce c|new|secs|m er idx new]; cbn [dev_step].
+  - (* EInit *)
+    now apply init_step_view.
   - (* EResp *)
     destruct (negb (check_mac1 (d_static d) (resp_body m) (r_mac1 m))); [split; reflexivity|].
     destruct (find_hs_index (d_peers d) (r_receiver m)) as [p|] eqn:Ef; [|split; reflexivity].
@@ -483,16 +550,27 @@ Proof.
     cbn [fst]. split; [|apply upd_peer_ids]. apply upd_peer_view.
     apply (agrees_of_in d p); auto. eapply find_any_index_in; eauto.
   - (* ESetPrivateKey *)
-    destruct (Nat.eqb new (d_static d) || existsb (fun p => Nat.eqb (p_id p) new) (d_peers d)); [split; reflexivity|].
-    cbn [fst]. unfold view, ids. cbn [d_peers]. split.
-    + induction (d_peers d) as [|a r IH]; cbn [map get_peer]; [reflexivity|].
-      cbn [rekey_peer upd p_id]. destruct (Nat.eqb (p_id a) k); [reflexivity|]. apply IH.
-    + rewrite map_map. reflexivity.
+    cbn [fst]. apply set_private_key_view.
   - (* EAge *)
     cbn [fst]. unfold view, ids. cbn [d_peers]. split.
     + induction (d_peers d) as [|a r IH]; cbn [map get_peer]; [reflexivity|].
       cbn [age_peer p_id]. destruct (Nat.eqb (p_id a) k); [reflexivity|]. apply IH.
     + rewrite map_map. reflexivity.
+  - (* EInitKey *)
+    destruct (negb (check_mac1 (d_static d) (init_body m) (i_mac1 m))); [cbn [fst]; apply set_private_key_view|].
+    destruct (consume_init (d_static d) (hs_list d) false m) as [[pid h1]|] eqn:Ec; [|cbn [fst]; apply set_private_key_view].
+    destruct (get_peer (d_peers d) pid) as [p|] eqn:Eg; [|cbn [fst]; apply set_private_key_view].
+    destruct (set_key_noop d new); [now apply init_step_view|].
+    destruct (consume_init_inv _ _ _ _ _ _ Ec) as (e' & hq & ts' & _ & Ef & _ & _ & _ & _ & _ & _ & Hpsk1 & Hrs1 & Hss1 & _).
+    destruct (find_peer_get_peer _ _ _ _ Ef) as (p' & Hg' & Hhq). rewrite Eg in Hg'. inversion Hg'; subst p'; clear Hg'.
+    destruct (get_peer_in _ _ _ Eg) as [Hin Hid]. subst hq.
+    assert (V : view (rekey_dev (upd_peer d (upd p h1 (p_kp p) (p_staged p))) new) k = view d k /\
+                ids (rekey_dev (upd_peer d (upd p h1 (p_kp p) (p_staged p))) new) = ids d).
+    { destruct (rekey_dev_view (upd_peer d (upd p h1 (p_kp p) (p_staged p))) new k) as [V I]. rewrite V, I.
+      split; [|apply upd_peer_ids]. apply upd_peer_view. apply (agrees_of_in d p); auto. cbn [upd p_hs]. now apply static_eq. }
+    destruct (get_peer (d_peers (rekey_dev (upd_peer d (upd p h1 (p_kp p) (p_staged p))) new)) pid) as [p2|] eqn:Eg2; [|exact V].
+    assert (Hz : st (p_hs p2) = handshakeZeroed) by (eapply rekey_get_peer_st; exact Eg2).
+    unfold create_resp. rewrite Hz. cbn [N.eqb negb handshakeZeroed handshakeInitiationConsumed]. exact V.
 Qed.
 
 Theorem restart_keeps_psk_and_identity : forall (d : dev) (evs : list ev) (k : kid),
@@ -553,7 +631,7 @@ Lemma set_private_key_identity d new :
   new <> d_static d -> (forall p, In p (d_peers d) -> p_id p <> new) ->
   d_static (fst (dev_step d (ESetPrivateKey new))) = new.
 Proof.
-  intros H1 H2. cbn [dev_step].
+  intros H1 H2. cbn [dev_step fst]. unfold set_private_key, set_key_noop.
   assert (Nat.eqb new (d_static d) = false) as -> by now apply Nat.eqb_neq.
   assert (existsb (fun p => Nat.eqb (p_id p) new) (d_peers d) = false) as ->.
   { destruct (existsb _ _) eqn:E; [|reflexivity]. apply existsb_exists in E. destruct E as (p & Hin & E).
@@ -582,3 +660,31 @@ Qed.
 
 Lemma age_accumulates secs p c age : p_cookie p = Some (c, age) -> p_cookie (age_peer secs p) = Some (c, (age + secs)%N).
 Proof. intros H. unfold age_peer. cbn [p_cookie]. now rewrite H. Qed.
+
+(* A change of the private key that falls between ConsumeMessageInitiation and
+   CreateMessageResponse voids the consumed initiation: no response is sent and the
+   device is exactly the re-keyed device (every handshake cleared, no new keypair);
+   at most the consumed handshake fields of one peer were written before, and
+   Handshake.Clear() erases them.  So no session forms under the new identity with
+   an initiator that addressed the old one. *)
+Theorem key_change_voids_consumed_initiation : forall d m er idx new,
+  set_key_noop d new = false ->
+  exists d1, dev_step d (EInitKey m er idx new) = (rekey_dev d1 new, []) /\
+             (d1 = d \/ exists p h1, In p (d_peers d) /\ d1 = upd_peer d (upd p h1 (p_kp p) (p_staged p))).
+Proof.
+  intros d m er idx new Hn. cbn [dev_step]. unfold set_private_key. rewrite Hn.
+  destruct (negb (check_mac1 (d_static d) (init_body m) (i_mac1 m))); [exists d; auto|].
+  destruct (consume_init (d_static d) (hs_list d) false m) as [[pid h1]|]; [|exists d; auto].
+  destruct (get_peer (d_peers d) pid) as [p|] eqn:Eg; [|exists d; auto].
+  exists (upd_peer d (upd p h1 (p_kp p) (p_staged p))).
+  split; [|right; exists p, h1; split; [exact (proj1 (get_peer_in _ _ _ Eg))|reflexivity]].
+  destruct (get_peer (d_peers (rekey_dev (upd_peer d (upd p h1 (p_kp p) (p_staged p))) new)) pid) as [p2|] eqn:Eg2; [|reflexivity].
+  assert (Hz : st (p_hs p2) = handshakeZeroed) by (eapply rekey_get_peer_st; exact Eg2).
+  unfold create_resp. rewrite Hz. reflexivity.
+Qed.
+
+Lemma rekey_dev_no_open_handshake d new p : In p (d_peers (rekey_dev d new)) ->
+  st (p_hs p) = handshakeZeroed /\ lidx (p_hs p) = 0%N.
+Proof.
+  unfold rekey_dev. cbn [d_peers]. intros H. apply in_map_iff in H. destruct H as (q & <- & _). split; reflexivity.
+Qed.
